@@ -151,6 +151,17 @@ Proof.
   - intros Hs Hi. unfold shift. destruct (N.to_nat s) as [|s'] eqn:Es; [lia|]. now apply shift_loop_reject.
 Qed.
 
+(* the executable entry point for huge shift amounts is the same function *)
+Lemma shift_go_eq p i s : shift_go p i s = shift p i s.
+Proof.
+  unfold shift_go, shift. destruct (s =? 0)%N eqn:E.
+  - apply N.eqb_eq in E. subst s. reflexivity.
+  - apply N.eqb_neq in E. replace (N.to_nat s) with (S (N.to_nat (N.pred s))) by lia. reflexivity.
+Qed.
+
+Theorem step_go_eq p c : step_go p c = step p c.
+Proof. destruct c as [i j|i|i s]; cbn [step_go step]; [reflexivity|reflexivity|apply shift_go_eq]. Qed.
+
 (* what the code does for a shift by zero: the operand comes back unchecked *)
 Theorem step_shift_zero p i : step p (CShift i 0) = (p, Ok i).
 Proof. reflexivity. Qed.
